@@ -136,21 +136,53 @@ func VfC11Remove() {
 	rt := vfTable(n, vf.Param("H"), 2)
 	before := vfSnapshot(rt)
 	x := vfAddr11()
-	byDisc := vf.Choose(2) == 1
+	mode := vf.Choose(3)
 	var removed int
-	if byDisc {
-		removed = rt.RemoveDisconnected(x, nil)
-	} else {
+	var list []netip.Addr
+	switch mode {
+	case 0:
 		removed = rt.RemoveNextHop(x)
+	case 1:
+		removed = rt.RemoveDisconnected(x, nil)
+	default:
+		// the router reports that its links to these peers are gone
+		list = []netip.Addr{vfAddr11()}
+		if vf.Bool() {
+			list = append(list, vfAddr11())
+		}
+		removed = rt.RemoveDisconnected(x, list)
+	}
+	inList := func(a netip.Addr) bool {
+		for _, l := range list {
+			if l == a {
+				return true
+			}
+		}
+		return false
 	}
 	k, cnt := 0, 0
 	for _, e := range before {
 		match := e.NextHop == x
-		if byDisc {
+		switch mode {
+		case 1:
 			match = e.DstIP == x || e.NextHop == x
 			for _, h := range e.Path.Hops {
 				if h.Router == x {
 					match = true
+				}
+			}
+		case 2:
+			// a route goes iff it uses a link between x and one of the listed peers (x's first occurrence in the path)
+			match = false
+			for i, h := range e.Path.Hops {
+				if h.Router == x {
+					if i > 0 && inList(e.Path.Hops[i-1].Router) {
+						match = true
+					}
+					if i < len(e.Path.Hops)-1 && inList(e.Path.Hops[i+1].Router) {
+						match = true
+					}
+					break
 				}
 			}
 		}
